@@ -8,6 +8,7 @@ def load_worlds():
     if _loaded:
         return
     import worlds.enip_seq          # noqa: F401
+    import worlds.enip_proto        # noqa: F401
     _loaded = True
 
 
@@ -23,5 +24,74 @@ PROPS = {
         assumptions=['array model (ref/model.py) encodes C03 as stated', 'reference codec decodes replies independently of cpppo'],
         quick=dict(parts=[dict(world='c03', count=320)]),
         thorough=dict(parts=[dict(world='c03', count=12000)]),
+    ),
+    'C04': dict(
+        level='exploration',
+        rule=('one seed -> 2..4 fixed-size tags (element sizes 1/2/4/8), reply budget drawn small (3..64) or default, '
+              '2..8 transfers: a walker issues Read Tag Fragmented with the offset advanced by the bytes received until '
+              'status 0x00, optionally after a writer tiled the same range with Write Tag Fragmented pieces of '
+              'tape-chosen sizes; another session writes other tags between fragments; non-trivial = >= 2 transfers '
+              'driven to completion; distinct = distinct event-log digest'),
+        assumptions=['fragment invariants are taken from the C04 statement, the concatenation from the array model'],
+        quick=dict(parts=[dict(world='c04', count=320)]),
+        thorough=dict(parts=[dict(world='c04', count=12000)]),
+    ),
+    'C05': dict(
+        level='exploration',
+        rule=('C03-style histories on two sessions with boundary requests (index len-1/len/len+1, counts 0/len/len+1, '
+              'misaligned and too-large offsets), unknown tag/object/attribute, every (request type, tag type) pair '
+              'and widest-range values written into narrower tags; after every request the in-process state must equal '
+              'the model (unchanged on refusal), the other session is probed, and at the end every tag is read back '
+              'completely; non-trivial = >= 1 refusal and >= 2 accepted requests compared'),
+        assumptions=['array model encodes the documented status codes of C05'],
+        quick=dict(parts=[dict(world='c05', count=320)]),
+        thorough=dict(parts=[dict(world='c05', count=12000)]),
+    ),
+    'C06': dict(
+        level='exploration',
+        rule=('one seed -> 1..4 concurrent sessions, each 3..30 frames mixing Register, List Services/Identity/Interfaces, '
+              'SendRRData with every tag/attribute service (valid, CIP-refused), unsupported service, unroutable request, '
+              'bundles of 1..8, Forward Open/Close + SendUnitData, Unregister; unique 8-byte sender contexts incl. all-zero/0xFF; '
+              'pipelining depth 1..32 (frames optionally coalesced into one send); a ledger over each session pairs the '
+              'k-th reply with the k-th request expecting one; non-trivial = >= 3 replies paired'),
+        assumptions=['each session writes only its own tags so its expected replies are schedule independent'],
+        quick=dict(parts=[dict(world='c06', count=320)]),
+        thorough=dict(parts=[dict(world='c06', count=12000)]),
+    ),
+    'C07': dict(
+        level='exploration',
+        rule=('one seed -> pre-state by a few writes, 1..4 twin executions of 1..12 member requests (reads, writes, '
+              'fragmented and attribute services, valid and CIP-refused, missing attribute): once as a Multiple Service '
+              'Packet, then, after restoring the pre-state, one by one; member replies compared byte for byte, tag state '
+              'compared, both compared with the model, offset table strict-decoded; in 4 of 7 runs 1..3 noise sessions '
+              'send their own bundles on disjoint tags with line-level pre-emption in the deferred-closure code; '
+              'non-trivial = >= 2 members compared'),
+        assumptions=['harness privilege: tag contents restored by direct assignment between the twin executions'],
+        quick=dict(parts=[dict(world='c07', count=240)]),
+        thorough=dict(parts=[dict(world='c07', count=8000)]),
+    ),
+    'C15': dict(
+        level='exploration',
+        rule=('one seed -> personality (none / --simple / --route-path as port/link, JSON list, IP-address link through the '
+              'real main() argument path / multi-segment UCMM subclass) x 4..24 requests of all services and bundles carrying '
+              'no wrapper, empty route path, the configured path, or one differing in port, link, link kind or length; '
+              'accepted iff the C15 table says so; refused requests must leave the in-process state untouched; '
+              'non-trivial = >= 3 accept/refuse decisions'),
+        assumptions=['the accept/refuse table is taken from the C15 statement'],
+        quick=dict(parts=[dict(world='c15', count=400)]),
+        thorough=dict(parts=[dict(world='c15', count=16000)]),
+    ),
+    'C02': dict(
+        level='fault_enumeration',
+        rule=('one seed -> a stream of 1..8 frames (writes with unique values, reads, bundles, List*) after Register. '
+              'mode seg: executed as-sent, pre-state restored, then the same bytes delivered byte-at-a-time / random k-way / '
+              'cut inside headers and length fields / coalesced; replies must be byte-identical (session handle masked) and '
+              'match the model.  mode cut: exactly k bytes delivered then FIN / RST / silence; replies exactly for complete '
+              'frames, state = model with exactly the complete frames applied, server closes, a prober and a concurrent '
+              'second session keep being served.  thorough tier sweeps every cut offset and every two-way split of sampled '
+              'streams; non-trivial = stream longer than one header'),
+        assumptions=['RST is injected only after the server consumed the delivered prefix (a reset may discard unread bytes)'],
+        quick=dict(parts=[dict(world='c02', count=400)]),
+        thorough=dict(parts=[dict(world='c02', count=10000)], sweep=dict(world='c02', streams=24)),
     ),
 }
